@@ -49,7 +49,7 @@ def run_seed(sid, pids):
             return res
         for pid in pids:
             r = subprocess.run([os.path.join(VERIF, 'check'), pid, '--tier', 'quick', '--repo', scratch], cwd=VERIF, stdout=subprocess.PIPE, stderr=subprocess.STDOUT, text=True)
-            keys = re.findall(r'rule=(\S+) key=(.+?) at ', r.stdout)
+            keys = re.findall(r'^    rule=(\S+) key=(.+?) at ', r.stdout, re.M)
             res['checks'][pid] = {'exit': r.returncode if (r.returncode != 1 or 'VIOLATION property=' in r.stdout) else 3, 'fired': [k for _, k in keys], 'tail': r.stdout.strip().splitlines()[-1][:300] if r.stdout.strip() else ''}
             if r.returncode not in (0, 1):
                 res['checks'][pid]['output'] = r.stdout[-1500:]
